@@ -817,7 +817,12 @@ class ExcelCompiler:
             self._gen_graph(address)
             cell_range = self.cell_map[address]
 
-        if cell_range.needs_calc:
+        if cell_range.needs_calc or (
+                self.cycles and not iterative_eval_tracker.is_calced(cell_range)):
+            if self.cycles and cell_range.formula:
+                # in iterative mode array formulas are calculated once per
+                # iteration, other ranges are always built from their cells
+                iterative_eval_tracker.calced(cell_range)
             self.log.debug(f"Evaluating: {cell_range.address}, {cell_range.python_code}")
             if cell_range.address.is_unbounded_range:
                 bounded_addr = str(self.eval(cell_range))
@@ -826,9 +831,7 @@ class ExcelCompiler:
                     # the used part of the unbounded range is a single cell
                     data = ((self._evaluate(bounded_addr), ), )
                 else:
-                    if bounded_addr_cell.value is None:
-                        self._evaluate_range(bounded_addr)
-                    data = bounded_addr_cell.value
+                    data = self._evaluate_range(bounded_addr)
 
             elif cell_range.formula is None:
                 data = tuple(
@@ -850,6 +853,9 @@ class ExcelCompiler:
             # INDIRECT() and OFFSET() can produce addresses we don't already have loaded
             self._gen_graph(address)
         cell = self.cell_map[address]
+
+        if isinstance(cell, _CellRange):
+            return self._evaluate_range(address)
 
         # calculate the cell value for formulas and ranges
         if cell.needs_calc:
